@@ -9,6 +9,7 @@ mod c17;
 mod c19;
 mod c20;
 mod c20mt;
+mod chain;
 mod cli;
 mod srv;
 mod rng;
@@ -159,6 +160,13 @@ fn main() {
                 for (i, (_h, ops)) in read_scripts(&replay).iter().enumerate() {
                     c17::replay_script(&mut out, i as u64, ops);
                 }
+            }
+        }
+        "chain" => {
+            if replay.is_empty() {
+                chain::generate(&mut out, seed, scripts, len);
+            } else {
+                chain::replay(&mut out, &read_scripts(&replay));
             }
         }
         "c19" => {
